@@ -371,9 +371,9 @@ func genBlock(rng *RNG, depth int) string {
 	case 0, 1, 2:
 		return genInline(rng) + "\n"
 	case 3:
-		return strings.Repeat("#", 1+rng.Intn(6)) + " " + strings.ReplaceAll(genInline(rng), "\n", " ") + []string{"", " #", " ##  ", " {#hid .c}", " {a=b}", " {id=5}", " {id=true x=[1,2]}", " {a={b=c} id=\"q\"}", " {.c id=-1.5e3}"}[rng.Intn(9)] + "\n"
+		return strings.Repeat("#", 1+rng.Intn(6)) + " " + strings.ReplaceAll(genInline(rng), "\n", " ") + []string{"", " #", " ##  ", " {#hid .c}", " {a=b}", " {id=5}", " {id=true x=[1,2]}", " {a={b=c} id=\"q\"}", " {.c id=-1.5e3}", " " + genAttrBlock(rng), " ## " + genAttrBlock(rng), " " + genAttrBlock(rng)}[rng.Intn(12)] + "\n"
 	case 4:
-		return strings.ReplaceAll(genInline(rng), "\n", " ") + "\n" + []string{"===", "---", "=", "-"}[rng.Intn(4)] + "\n"
+		return strings.ReplaceAll(genInline(rng), "\n", " ") + []string{"", "", " " + genAttrBlock(rng)}[rng.Intn(3)] + "\n" + []string{"===", "---", "=", "-"}[rng.Intn(4)] + "\n"
 	case 5:
 		return []string{"***", "---", "___", " * * *", "- - -"}[rng.Intn(5)] + "\n"
 	case 6:
@@ -571,8 +571,95 @@ func releaseMarkdown(c Cfg, m goldmark.Markdown) {
 	p.(*sync.Pool).Put(m)
 }
 
+
+// genAttrBlock: one attribute block of the parser's attribute syntax (parser/attribute.go): 1-4 items out of #id,
+// .class, key=value with keys in every letter case (class / id / allowed / unknown names) and values of every kind
+// the value parser knows (bare word, quoted with escapes, number, bool, null, array, nested object, empty).
+func genAttrBlock(rng *RNG) string {
+	keys := []string{"class", "Class", "CLASS", "cLaSs", "id", "ID", "Id", "title", "Title", "lang", "style", "data-x", "DATA-y", "onclick", "x", "a.b", "a:b", "_u", "k-1"}
+	vals := []string{"v", "\"q r\"", "\"e\\\"s\\\\c\"", "\"\"", "1", "-1.5e3", "0x10", "true", "false", "null", "[1,\"x\"]", "[]", "[[1],2]", "{b=c}", "{}", "\"<&>\"", "\"tab\\ty\"", "é"}
+	n := 1 + rng.Intn(4)
+	var items []string
+	for i := 0; i < n; i++ {
+		switch rng.Intn(6) {
+		case 0:
+			items = append(items, "#"+[]string{"i", "i-1", "I", "é", "a b"}[rng.Intn(5)])
+		case 1, 2:
+			items = append(items, "."+[]string{"a", "b-c", "C", "a.b", "é"}[rng.Intn(5)])
+		default:
+			items = append(items, rng.Pick(keys)+"="+rng.Pick(vals))
+		}
+	}
+	sep := []string{" ", " ", "  ", "\t", ""}[rng.Intn(5)]
+	return "{" + []string{"", " "}[rng.Intn(2)] + strings.Join(items, sep) + []string{"", " "}[rng.Intn(2)] + "}" + []string{"", "", " ", "  "}[rng.Intn(4)]
+}
+
 // globalAttrNames: the names html.GlobalAttributeFilter allows (data only; used to derive NEAR MISSES of allowed names)
 var globalAttrNames = strings.Split("accesskey,autocapitalize,autofocus,class,contenteditable,dir,draggable,enterkeyhint,hidden,id,inert,inputmode,is,itemid,itemprop,itemref,itemscope,itemtype,lang,part,role,slot,spellcheck,style,tabindex,title,translate", ",")
+
+
+// attrNameAlphabet: bytes parser/attribute.go accepts inside an attribute name
+var attrNameAlphabet = []byte("abcdefghijklmnopqrstuvwxyzABCDEFGHIJKLMNOPQRSTUVWXYZ0123456789-_:.")
+
+// attrVariants calls f with every variant of name in which one byte, or two ADJACENT bytes, are replaced by other
+// attribute-name bytes (the first byte stays a lower-case letter). This is the complete Hamming-ball a linear hash
+// (h*k + c) or a position-wise comparison can confuse with the name itself.
+func attrVariants(name string, f func(v []byte)) {
+	b := []byte(name)
+	v := make([]byte, len(b))
+	for i := 0; i < len(b); i++ {
+		for _, x := range attrNameAlphabet {
+			if i == 0 && !(x >= 'a' && x <= 'z') {
+				continue
+			}
+			copy(v, b)
+			v[i] = x
+			if x != b[i] {
+				f(v)
+			}
+			if i+1 < len(b) {
+				for _, y := range attrNameAlphabet {
+					if x == b[i] && y == b[i+1] {
+						continue
+					}
+					copy(v, b)
+					v[i], v[i+1] = x, y
+					f(v)
+				}
+			}
+		}
+	}
+}
+
+var (
+	directedOnce  sync.Once
+	directedNames []string
+)
+
+// DirectedAttrNames: names that the REAL html.GlobalAttributeFilter accepts although they are not allowed, found by
+// screening every one- and adjacent-two-byte variant of every allowed name through the real Contains (a search
+// directed by the implementation; empty on a correct filter). Capped at 64.
+func DirectedAttrNames() []string {
+	directedOnce.Do(func() {
+		allowed := map[string]bool{}
+		for _, n := range globalAttrNames {
+			allowed[n] = true
+		}
+		seen := map[string]bool{}
+		for _, n := range globalAttrNames {
+			attrVariants(n, func(v []byte) {
+				if len(directedNames) >= 64 || allowed[string(v)] || seen[string(v)] || bytes.HasPrefix(v, []byte("data-")) {
+					return
+				}
+				if html.GlobalAttributeFilter.Contains(v) {
+					seen[string(v)] = true
+					directedNames = append(directedNames, string(v))
+				}
+			})
+		}
+	})
+	return directedNames
+}
 
 // NearMissAttrNames: names that are NOT allowed but agree with allowed names position by position in their first
 // three bytes and in length/suffix (what a prefix-table-only or suffix-only comparison would let through), plus
